@@ -1,6 +1,8 @@
 package main
 
 import (
+	"os/exec"
+	"os"
 	"bytes"
 	"context"
 	"encoding/json"
@@ -15,7 +17,10 @@ import (
 	"github.com/a-h/templ/lsp/jsonrpc2"
 )
 
-func init() { register("C18", runC18) }
+func init() {
+	register("C18", runC18)
+	register("C18child", runC18Child)
+}
 
 // chunkConn delivers a fixed byte stream in scripted chunk sizes and records what is written.
 type chunkConn struct {
@@ -298,6 +303,57 @@ func runC18(e *emitter, tier string, seed uint64) {
 	}
 	for i := 0; i < npc; i++ {
 		c18ParallelCalls(e, i)
+	}
+	// 2d. a handler that returns an error fails the connection - it must not bring the process down (child process: a
+	// panic in the read loop cannot be recovered from here)
+	if e.mine("handlererr") {
+		self, _ := os.Executable()
+		cmd := exec.Command(self, "C18child")
+		var stderr bytes.Buffer
+		cmd.Stderr = &stderr
+		out, err := cmd.Output()
+		status := strings.TrimSpace(string(out))
+		if err != nil || status == "" {
+			status = fmt.Sprintf("child failed: %v", err)
+			if i := strings.Index(stderr.String(), "panic:"); i >= 0 {
+				status = strings.SplitN(stderr.String()[i:], "\n", 2)[0]
+			}
+		}
+		e.emit("handlererr", "handlererr", hx(status))
+	}
+	// 2e. a frame whose body holds something after the message (a second value, garbage) is malformed: an error
+	for i, tail := range []string{"", " ", "\n", "\r\n\t ", "x", " trailing garbage", "{\"x", "{}", "[]", "null", " 1", "\x00", "}"} {
+		for j, body := range []string{`{"jsonrpc":"2.0","method":"a"}`, `{"jsonrpc":"2.0","id":1,"method":"m","params":[1]}`, `{"jsonrpc":"2.0","id":"s","result":{"k":"v"}}`} {
+			key := fmt.Sprintf("trailing %d %d", i, j)
+			if !e.mine(key) {
+				continue
+			}
+			payload := body + tail
+			wire := fmt.Sprintf("Content-Length: %d\r\n\r\n%s", len(payload), payload)
+			st := jsonrpc2.NewStream(&chunkConn{data: []byte(wire)})
+			outcome := "hang"
+			done := make(chan string, 1)
+			go func() {
+				defer func() {
+					if p := recover(); p != nil {
+						done <- "panic"
+					}
+				}()
+				msg, _, err := st.Read(context.Background())
+				if err != nil {
+					done <- "error"
+				} else if msg == nil {
+					done <- "nil-message"
+				} else {
+					done <- "message"
+				}
+			}()
+			select {
+			case outcome = <-done:
+			case <-time.After(2 * time.Second):
+			}
+			e.emit(key, "trailing", hx(body), hx(tail), outcome)
+		}
 	}
 	// 3. call / response matching against a scripted peer over net.Pipe
 	rounds := 30
@@ -614,4 +670,36 @@ func c18ParallelCalls(e *emitter, round int) {
 		seen[id] = true
 	}
 	e.emit(fmt.Sprintf("pcall %d", round), "pcall", fmt.Sprint(n), fmt.Sprint(wrong), fmt.Sprint(dups))
+}
+
+// runC18Child: a connection whose handler returns an error for a notification; the peer then sends more and hangs up.
+func runC18Child(e *emitter, tier string, seed uint64) {
+	for _, herr := range []error{errors.New("handler failed"), fmt.Errorf("wrapped: %w", io.ErrUnexpectedEOF), context.Canceled} {
+		c1, c2 := net.Pipe()
+		conn := jsonrpc2.NewConn(jsonrpc2.NewStream(c1))
+		ctx, stop := context.WithCancel(context.Background())
+		herr := herr
+		conn.Go(ctx, func(ctx context.Context, reply jsonrpc2.Replier, req jsonrpc2.Request) error { return herr })
+		peer := jsonrpc2.NewStream(c2)
+		n, _ := jsonrpc2.NewNotification("note", 1)
+		go func() {
+			peer.Write(ctx, n)
+			peer.Write(ctx, n)
+			c2.Close()
+		}()
+		select {
+		case <-conn.Done():
+		case <-time.After(3 * time.Second):
+			fmt.Fprintln(e.w, "connection did not finish after its handler failed")
+			stop()
+			return
+		}
+		if conn.Err() == nil {
+			fmt.Fprintln(e.w, "connection finished without an error although its handler failed")
+			stop()
+			return
+		}
+		stop()
+	}
+	fmt.Fprintln(e.w, "ok")
 }
